@@ -555,8 +555,19 @@ def run(ctx):
     n_kink, n_steps, sing_steps, n_undecided = [0], [0], [], [0]
     per_history, total_budget = (20.0, 130.0) if quick else (300.0, 1500.0)
     t_fd, unexplored = time.time(), []
-    for ndim, mat, ns in plan:
+    # forced subdivision (force_divide=True): SrProps.C11.substep_elastic_exact says an elastic material
+    # reports the derivative however the step is split; substep_inelastic_overreports says a creeping one
+    # does not (finding F30) -- both predictions are run on the real solver
+    forced = [(1, "Econst", 2, 2), (2, "Econst", 1, 1), (3, "Econst", 1, 1), (2, rng.choice(el[1:]), 2, 2),
+              (1, rng.choice(inel), 1, 1)]
+    if not quick:
+        forced += [(nd, m, 2, md) for nd in (1, 2, 3) for m in el[1:3] for md in (1, 3)] + [(2, m, 1, 2) for m in rng.sample(inel, 4)]
+    plan = [(a, b, c, None) for (a, b, c) in plan] + forced
+    n_forced_elastic = [0, 0]
+    for ndim, mat, ns, fdiv in plan:
         case = gen_case(rng, ndim, mat, ns)
+        if fdiv is not None:
+            case["solver"].update(force_divide=True, max_divide=fdiv)
         if time.time() - t_fd > total_budget:
             unexplored.append((ndim, mat, ns))
             continue
@@ -574,6 +585,9 @@ def run(ctx):
             skipped.append((key, skip))
         for r_ in rows:
             n_steps[0] += 1
+            if fdiv is not None and is_elastic(mat) and "rel_err" in r_ and not r_.get("undecided"):
+                n_forced_elastic[0] += 1
+                n_forced_elastic[1] += len(r_.get("subincrement_pattern", [])) > 1
             if r_.get("skipped_singular_solve"):
                 sing_steps.append({"ndim": ndim, "mat": mat, "load": case["load"], "step": r_["step"],
                                    "where": r_["skipped_singular_solve"], "case_for_replay": case})
@@ -591,6 +605,10 @@ def run(ctx):
     ctx.extra["fd_worst_rel_err"] = {"elastic": worst_el, "inelastic": worst_in}
     ctx.extra["fd_steps_with_kink_inside_first_stencil"] = n_kink[0]
     ctx.extra["fd_steps_total"] = n_steps[0]
+    ctx.extra["fd_forced_subdivision_elastic_steps"] = n_forced_elastic[0]
+    ctx.obligation("forced subdivision was exercised on elastic materials (prediction of substep_elastic_exact: "
+                   "reported stiffness == derivative however the step is split)", n_forced_elastic[1] >= 3,
+                   "%d elastic steps differentiated under force_divide, %d of them actually split" % tuple(n_forced_elastic))
     ctx.extra["fd_steps_without_visible_derivative"] = n_undecided[0]
     ctx.obligation("the finite-difference stencil sees a derivative (no kink, same sub-increment pattern) on at least "
                    "90 % of the differentiated steps", n_undecided[0] * 10 <= max(n_steps[0], 1),
